@@ -15,17 +15,18 @@ Local Open Scope Z_scope.
 (** * 1. mathutil.BinaryLog                                                                    *)
 
 (** ** 1a. value semantics: the float (n, fracBits) of binarylog.go is the number n / 2^fracBits;
-    it is represented here by x = value * 2^mb (mb = mantissaBits = maxFracBits). *)
+    it is represented here by x = value * 2^mb (mb = mantissaBits = maxFracBits).  Divisions by powers of
+    two are written as shifts ([Z.shiftr a k = a / 2^k], [Z.shiftl 1 k = 2^k]) because the model is evaluated by vm_compute. *)
 
 (* newFloat(n, c, mb) + normalize: value n / 2^c, rounded half-up to mb fractional bits when c > mb *)
 Definition blog_init (mb n : Z) : Z :=
   let c := Z.log2 n in
-  if c <=? mb then n * 2 ^ (mb - c) else (n + 2 ^ (c - mb - 1)) / 2 ^ (c - mb).
+  if c <=? mb then Z.shiftl n (mb - c) else Z.shiftr (n + Z.shiftl 1 (c - mb - 1)) (c - mb).
 
 (* one iteration of the loop: sqr (round half-up to mb bits), ge2?, div2 (round half-up) *)
 Definition blog_step (mb x : Z) : bool * Z :=
-  let y := (x * x + 2 ^ (mb - 1)) / 2 ^ mb in
-  if 2 ^ (mb + 1) <=? y then (true, (y + 1) / 2) else (false, y).
+  let y := Z.shiftr (x * x + Z.shiftl 1 (mb - 1)) mb in
+  if Z.shiftl 1 (mb + 1) <=? y then (true, Z.shiftr (y + 1) 1) else (false, y).
 
 Fixpoint blog_mant (mb : Z) (k : nat) (x m : Z) : Z :=
   match k with
@@ -254,10 +255,12 @@ Definition calc_order (h : header) : co_result :=
   if (thr_r <? ie) && (tgt_r <? tot_r) then CoOk ie ctx_region else
   CoOk ie ctx_zone.
 
-(* TotalLogEntropy in a node of context [ctx]; errors are logged and 0 is returned, as in the code *)
-Definition total_entropy (ctx : Z) (h : header) : Z :=
+(* TotalLogEntropy in a node of context [ctx]; errors are logged and 0 is returned, as in the code.
+   The [_of] variants take the result [co] of CalcOrder(h) as an argument so that an evaluation of
+   several of them on the same header computes the order once (vm_compute is call-by-value). *)
+Definition total_entropy_of (co : co_result) (ctx : Z) (h : header) : Z :=
   if h_genesis h then 0 else
-  match calc_order h with
+  match co with
   | CoOk ie o =>
       let ie := if ctx =? ctx_zone then ie + h_ws h else ie in
       if o =? ctx_prime then h_pe_p h + h_pd_r h + h_pd_z h + ie
@@ -266,10 +269,11 @@ Definition total_entropy (ctx : Z) (h : header) : Z :=
       else 0
   | _ => 0
   end.
+Definition total_entropy (ctx : Z) (h : header) : Z := total_entropy_of (calc_order h) ctx h.
 
-Definition delta_entropy (ctx : Z) (h : header) : Z :=
+Definition delta_entropy_of (co : co_result) (ctx : Z) (h : header) : Z :=
   if h_genesis h then 0 else
-  match calc_order h with
+  match co with
   | CoOk ie o =>
       let ie := if ctx =? ctx_zone then ie + h_ws h else ie in
       if o =? ctx_prime then 0
@@ -278,10 +282,11 @@ Definition delta_entropy (ctx : Z) (h : header) : Z :=
       else 0
   | _ => 0
   end.
+Definition delta_entropy (ctx : Z) (h : header) : Z := delta_entropy_of (calc_order h) ctx h.
 
-Definition uncled_delta_entropy (h : header) : Z :=
+Definition uncled_delta_entropy_of (co : co_result) (h : header) : Z :=
   if h_genesis h then 0 else
-  match calc_order h with
+  match co with
   | CoOk _ o =>
       if o =? ctx_prime then 0
       else if o =? ctx_region then h_pud_r h + h_pud_z h + h_uncled h
@@ -289,6 +294,7 @@ Definition uncled_delta_entropy (h : header) : Z :=
       else 0
   | _ => 0
   end.
+Definition uncled_delta_entropy (h : header) : Z := uncled_delta_entropy_of (calc_order h) h.
 
 (* ------------------------------------------------------------------------------------------ *)
 (** * 7. verifyHeader, zone context: the modelled subset of rules                              *)
@@ -312,10 +318,11 @@ Record env := mkEnv {
 
 Definition u8 (x : Z) : Z := x mod 256.
 
-Definition parent_order (p : header) : option Z :=
-  match calc_order p with CoOk _ o => Some o | _ => None end.
-Definition parent_is_prime (p : header) : bool :=
-  match parent_order p with Some o => o =? ctx_prime | None => false end.
+Definition order_of (co : co_result) : option Z := match co with CoOk _ o => Some o | _ => None end.
+Definition parent_order (p : header) : option Z := order_of (calc_order p).
+Definition is_prime_of (co : co_result) : bool :=
+  match order_of co with Some o => o =? ctx_prime | None => false end.
+Definition parent_is_prime (p : header) : bool := is_prime_of (calc_order p).
 
 (* ComputeExpansionNumber(parent) *)
 Definition expansion_of (i : pt_info) : option Z :=
@@ -324,35 +331,41 @@ Definition expansion_of (i : pt_info) : option Z :=
   if pt_threshold i =? tree_expansion_trigger_window + tree_expansion_wait_count
   then Some (u8 (pt_expansion i + 1)) else
   if negb (ppt_found i) then None else Some (ppt_expansion i).
-Definition expected_expansion (e : env) (p : header) : option Z :=
-  match parent_order p with
+Definition expected_expansion_of (co : co_result) (e : env) : option Z :=
+  match order_of co with
   | None => None
   | Some o => expansion_of (if o =? ctx_prime then e_pt_self e else e_pt_ref e)
   end.
+Definition expected_expansion (e : env) (p : header) : option Z := expected_expansion_of (calc_order p) e.
 
 Definition expected_difficulty (e : env) (p : header) : option Z :=
   if h_genesis p then calc_difficulty_genesis (h_diff p) (e_gcase e)
   else calc_difficulty (e_dl e) (e_mind e) (h_diff p) (h_time p) (e_gp e).
 
-Definition expected_parent_entropy (p : header) : Z := total_entropy ctx_zone p.
-Definition expected_parent_delta (p : header) : Z :=
-  match parent_order p with
-  | Some o => if o <? ctx_zone then 0 else delta_entropy ctx_zone p
+Definition expected_parent_entropy_of (co : co_result) (p : header) : Z := total_entropy_of co ctx_zone p.
+Definition expected_parent_entropy (p : header) : Z := expected_parent_entropy_of (calc_order p) p.
+Definition expected_parent_delta_of (co : co_result) (p : header) : Z :=
+  match order_of co with
+  | Some o => if o <? ctx_zone then 0 else delta_entropy_of co ctx_zone p
   | None => 0
   end.
-Definition expected_parent_uncled_delta (p : header) : Z :=
-  match parent_order p with
-  | Some o => if o <? ctx_zone then 0 else uncled_delta_entropy p
+Definition expected_parent_delta (p : header) : Z := expected_parent_delta_of (calc_order p) p.
+Definition expected_parent_uncled_delta_of (co : co_result) (p : header) : Z :=
+  match order_of co with
+  | Some o => if o <? ctx_zone then 0 else uncled_delta_entropy_of co p
   | None => 0
   end.
+Definition expected_parent_uncled_delta (p : header) : Z := expected_parent_uncled_delta_of (calc_order p) p.
 Definition expected_gas_limit (e : env) (p : header) : Z := calc_gas_limit (h_num p) (h_gas_limit p) (e_gas_ceil e).
 Definition expected_state_limit (p : header) : Z := calc_state_limit (h_num p) (h_state_limit p) state_ceil.
 Definition expected_base_fee (e : env) (p : header) : Z :=
   calc_base_fee (h_genesis p) (match e_gp e with GpGenesis => true | _ => false end) (e_er_pt e) (h_diff p) (h_num p).
-Definition expected_pt_hash (p : header) : Z :=
-  if parent_is_prime p then h_hash p else if h_genesis p then h_hash p else h_pt_hash p.
-Definition expected_pt_num (p : header) : Z :=
-  if parent_is_prime p then h_num_prime p else if h_genesis p then h_num_prime p else h_pt_num p.
+Definition expected_pt_hash_of (co : co_result) (p : header) : Z :=
+  if is_prime_of co then h_hash p else if h_genesis p then h_hash p else h_pt_hash p.
+Definition expected_pt_hash (p : header) : Z := expected_pt_hash_of (calc_order p) p.
+Definition expected_pt_num_of (co : co_result) (p : header) : Z :=
+  if is_prime_of co then h_num_prime p else if h_genesis p then h_num_prime p else h_pt_num p.
+Definition expected_pt_num (p : header) : Z := expected_pt_num_of (calc_order p) p.
 Definition expected_number (p : header) : Z := (if h_genesis p then 0 else h_num p) + 1.
 
 Definition opt_eqb (a : option Z) (b : Z) : bool := match a with Some x => x =? b | None => false end.
@@ -360,8 +373,9 @@ Definition opt_eqb (a : option Z) (b : Z) : bool := match a with Some x => x =? 
 Definition rule_time_future (e : env) (c : header) : bool := h_time c <=? e_now e + allowed_future_block_time.
 Definition rule_time_parent (p c : header) : bool := h_time p <=? h_time c.
 Definition rule_difficulty (e : env) (p c : header) : bool := opt_eqb (expected_difficulty e p) (h_diff c).
-Definition rule_parent_order (p : header) : bool :=
-  match parent_order p with Some o => o <=? ctx_zone | None => false end.
+Definition rule_parent_order_of (co : co_result) : bool :=
+  match order_of co with Some o => o <=? ctx_zone | None => false end.
+Definition rule_parent_order (p : header) : bool := rule_parent_order_of (calc_order p).
 Definition rule_parent_entropy (p c : header) : bool := expected_parent_entropy p =? h_pe_z c.
 Definition rule_parent_delta (p c : header) : bool := expected_parent_delta p =? h_pd_z c.
 Definition rule_parent_uncled_delta (p c : header) : bool := expected_parent_uncled_delta p =? h_pud_z c.
@@ -382,6 +396,16 @@ Definition valid_child (e : env) (p c : header) : bool :=
   rule_time_future e c && rule_time_parent p c && rule_difficulty e p c && rule_parent_order p &&
   rule_parent_entropy p c && rule_parent_delta p c && rule_parent_uncled_delta p c &&
   rule_expansion e p c && rule_gas e p c && rule_state p c && rule_base_fee e p c && rule_pt p c &&
+  rule_number p c.
+
+(* the same predicate with CalcOrder(parent) evaluated once (Proofs: valid_child_fast_eq) *)
+Definition valid_child_fast (e : env) (p c : header) : bool :=
+  let co := calc_order p in
+  rule_time_future e c && rule_time_parent p c && rule_difficulty e p c && rule_parent_order_of co &&
+  (expected_parent_entropy_of co p =? h_pe_z c) && (expected_parent_delta_of co p =? h_pd_z c) &&
+  (expected_parent_uncled_delta_of co p =? h_pud_z c) &&
+  opt_eqb (expected_expansion_of co e) (h_expansion c) && rule_gas e p c && rule_state p c && rule_base_fee e p c &&
+  ((expected_pt_hash_of co p =? h_pt_hash c) && (expected_pt_num_of co p =? h_pt_num c)) &&
   rule_number p c.
 
 (* ------------------------------------------------------------------------------------------ *)
@@ -497,10 +521,11 @@ Definition body_ok (b : case_body) : bool :=
   | CKqi n obs => one_over_kqi n =? obs
   | COrder h obs => co_eqb (calc_order h) obs
   | CTotals ctx h t d u =>
-      (total_entropy ctx h =? t) && (delta_entropy ctx h =? d) && (uncled_delta_entropy h =? u)
+      let co := calc_order h in
+      (total_entropy_of co ctx h =? t) && (delta_entropy_of co ctx h =? d) && (uncled_delta_entropy_of co h =? u)
   | CWsPost n obs => ws_entropy_postfork n =? obs
   | CExpansion e p obs => oz_eqb (expected_expansion e p) obs
-  | CVerify e p c obs => Bool.eqb (valid_child e p c) obs
+  | CVerify e p c obs => Bool.eqb (valid_child_fast e p c) obs
   | CCache ops obs => ocos_eqb (cache_run [] ops) obs
   end.
 
